@@ -4,7 +4,7 @@ import QibProofs.Lemmas.GateAlgebra
 import QibProofs.Lemmas.QubitizationAct
 import QibProofs.Lemmas.QubitizationEvt
 import QibProofs.Lemmas.QubitizationMat
-import Mathlib.Algebra.FreeMonoid.Basic
+import QibProofs.Lemmas.QubitizationBridge
 import Mathlib.Tactic.Ring
 import Mathlib.Tactic.FieldSimp
 import Mathlib.Tactic.Linarith
@@ -15,7 +15,7 @@ Model: `QibModel/Qubitization.lean` (executed by `drv_qubitization`, tied to the
 `Pcps.asCircuit` (gate lists of both constructions), `pcpsMatrixDiag`, `GateDesc.act`/`circuitAct` (what the emitted gates
 do to basis states), `evtMatrix`/`evtCircuit` (the loops of `EigenvalueTransformation`), `evtSpec` (the defining product).
 -/
-open Matrix NormedSpace Complex QibGen Qib.GateAlgebra Qib.Qubitization
+open Matrix NormedSpace Complex QibGen Qib.GateAlgebra Qib.Qubitization Qib.Embed
 
 namespace Qib.C19
 
@@ -24,27 +24,11 @@ namespace Qib.C19
 section PhaseShift
 variable {κ : Type} [Fintype κ] [DecidableEq κ]
 
-/-- the reflection `2P − 1` about the span of the basis states selected by `p` (`P` = projector onto them);
-for `p = (· = k0)` this is `2|k0⟩⟨k0| − 1` -/
-def refl (p : κ → Prop) [DecidablePred p] : Matrix κ κ ℂ := Matrix.diagonal fun k => if p k then 1 else -1
-
-theorem refl_eq_two_proj_sub_one (p : κ → Prop) [DecidablePred p] :
-    refl p = (2 : ℂ) • (Matrix.diagonal fun k => if p k then (1 : ℂ) else 0) - 1 := by
-  ext i j
-  by_cases h : i = j
-  · subst h
-    by_cases hp : p i <;> simp [refl, Matrix.diagonal, hp] <;> norm_num
-  · simp [refl, Matrix.diagonal, Matrix.one_apply, h]
-
-theorem refl_sq (p : κ → Prop) [DecidablePred p] : refl p * refl p = 1 := by
-  rw [refl, Matrix.diagonal_mul_diagonal]
-  ext i j; by_cases h : i = j <;> by_cases h0 : p j <;> simp [Matrix.diagonal, Matrix.one_apply, h, h0]
-
 /-- **`ProjectorControlledPhaseShift.as_matrix`** `= expm(1j θ (2 P₀ − 1))` is the diagonal matrix with `e^{iθ}` on the
 projection state(s) and `e^{-iθ}` everywhere else — for every angle and every index type (every number of qubits) -/
 theorem C19_pcps_matrix_def (p : κ → Prop) [DecidablePred p] (θ : ℝ) :
-    exp ((I * (θ : ℂ)) • refl p) = Matrix.diagonal fun k => if p k then Complex.exp (I * θ) else Complex.exp (-(I * θ)) := by
-  rw [Matrix.exp_smul_of_sq_eq_one (refl p) (refl_sq p)]
+    exp ((I * (θ : ℂ)) • reflOn p) = Matrix.diagonal fun k => if p k then Complex.exp (I * θ) else Complex.exp (-(I * θ)) := by
+  rw [Matrix.exp_smul_of_sq_eq_one (reflOn p) (reflOn_sq p)]
   have hc : Complex.cosh (I * (θ : ℂ)) = Complex.cos θ := by rw [mul_comm, Complex.cosh_mul_I]
   have hs : Complex.sinh (I * (θ : ℂ)) = Complex.sin θ * I := by rw [mul_comm, Complex.sinh_mul_I]
   have e1 : Complex.exp (I * θ) = Complex.cos θ + Complex.sin θ * I := by rw [mul_comm, Complex.exp_mul_I]
@@ -53,7 +37,7 @@ theorem C19_pcps_matrix_def (p : κ → Prop) [DecidablePred p] (θ : ℝ) :
     rw [this, Complex.exp_mul_I]; simp [Complex.cos_neg, Complex.sin_neg]; ring
   rw [hc, hs, e1, e2]
   ext i j
-  by_cases h : i = j <;> by_cases h0 : p j <;> simp [refl, Matrix.diagonal, Matrix.one_apply, h, h0] <;> ring
+  by_cases h : i = j <;> by_cases h0 : p j <;> (simp [reflOn, Matrix.diagonal, h, h0]; try ring)
 
 /-- what the executable model of `as_matrix` answers: it accepts exactly the non-empty all-zero projection states and marks
 basis state `0 = |0…0⟩` (and no other) as the one carrying `e^{+iθ}` — i.e. `p = (· = 0)` in `C19_pcps_matrix_def` -/
@@ -138,19 +122,10 @@ Register index = bit function `Fin n → Bool`, qubit label `k` = wire `k` (labe
 `gateMat n g` = matrix of the basis-state action of the emitted gate `g`, `circuitMat n c` = the product `gₖ ⋯ g₂ g₁`
 formed by `Circuit.as_matrix` (`C05_circuitMat_eq_prod`). -/
 
-/-- all encoding qubits read 0 in the register state `R` -/
-def EncZero (n : ℕ) (enc : List ℕ) (R : Fin n → Bool) : Prop := AllZero (ext n R) enc
-
-instance (n : ℕ) (enc : List ℕ) : DecidablePred (EncZero n enc) := fun R => by unfold EncZero; infer_instance
-
-theorem exp_I_mul_ite (c : Prop) [Decidable c] (θ : ℝ) :
-    Complex.exp (I * ((if c then θ else -θ : ℝ) : ℂ)) = if c then Complex.exp (I * θ) else Complex.exp (-(I * θ)) := by
-  split_ifs <;> simp
-
 /-- **c-phase method, matrix form**: on every register the circuit's matrix IS `exp(iθ(2P₀−1))`, `P₀` the projector onto
 "all encoding qubits read 0" (`|0…0⟩⟨0…0| ⊗ 1` on the other wires) — every `m ≥ 1`, every angle, every placement -/
 theorem C19_pcps_cphase_matrix (p : Pcps ℝ) (c : List (GateDesc ℝ)) (hm : p.method = .cphase) (h : p.asCircuit = .ok c) (n : ℕ) :
-    circuitMat n c = exp ((I * (p.theta : ℂ)) • refl (EncZero n p.enc)) := by
+    circuitMat n c = exp ((I * (p.theta : ℂ)) • reflOn (EncZero n p.enc)) := by
   have hdiag : ∀ g ∈ c, g.TargetLt n := by
     obtain ⟨_, hcase⟩ := asCircuit_ok h
     rcases hcase with ⟨hm', _⟩ | ⟨_, e0, rest, _, rfl⟩
@@ -171,9 +146,9 @@ theorem C19_pcps_auxiliary_matrix (p : Pcps ℝ) (c : List (GateDesc ℝ)) (hm :
     (a : ℕ) (ha : p.aux.head? = some a) (hdisj : a ∉ p.enc) (n : ℕ) (han : a < n) :
     circuitMat n c = Matrix.diagonal (fun R => if (ext n R a = false ↔ EncZero n p.enc R) then Complex.exp (I * p.theta)
         else Complex.exp (-(I * p.theta))) ∧
-    circuitMat n c * wireZero n a = exp ((I * (p.theta : ℂ)) • refl (EncZero n p.enc)) * wireZero n a ∧
-    exp ((I * (p.theta : ℂ)) • refl (EncZero n p.enc)) * wireZero n a
-      = wireZero n a * exp ((I * (p.theta : ℂ)) • refl (EncZero n p.enc)) := by
+    circuitMat n c * wireZero n a = exp ((I * (p.theta : ℂ)) • reflOn (EncZero n p.enc)) * wireZero n a ∧
+    exp ((I * (p.theta : ℂ)) • reflOn (EncZero n p.enc)) * wireZero n a
+      = wireZero n a * exp ((I * (p.theta : ℂ)) • reflOn (EncZero n p.enc)) := by
   obtain ⟨a', ha', hact, _⟩ := C19_pcps_auxiliary_correct p c hm h (fun x hx => by
     rw [ha] at hx; cases hx; exact hdisj) (fun _ => false)
   have haa : a' = a := by rw [ha] at ha'; cases ha'; rfl
@@ -248,19 +223,6 @@ theorem C19_evtSpec_eq_prod (P : ℝ → M) (U Ui : M) (θs : List ℝ) :
     intro k hk
     have e : rest.length + 1 - 1 - (k + 1) = rest.length - 1 - k := by omega
     simp only [Function.comp, Nat.succ_eq_add_one, e, List.getD_cons_succ]
-
-/-- letters of the free monoid: `inl θ` = the phase shift by `θ`, `inr true` = the encoding, `inr false` = its inverse -/
-abbrev Letter := ℝ ⊕ Bool
-
-/-- the product in the free monoid: the *word* the loop writes down, before any matrix is substituted -/
-def evtWord (θs : List ℝ) : FreeMonoid Letter :=
-  evtSpec (fun a => FreeMonoid.of (Sum.inl a)) (FreeMonoid.of (Sum.inr true)) (FreeMonoid.of (Sum.inr false)) θs
-
-theorem evtWord_cons (a : ℝ) (rest : List ℝ) :
-    (evtWord (a :: rest)).toList = Sum.inl a :: Sum.inr (decide (rest.length % 2 = 0)) :: (evtWord rest).toList := by
-  unfold evtWord
-  rw [evtSpec]
-  by_cases h : rest.length % 2 = 0 <;> simp [h, FreeMonoid.toList_mul, FreeMonoid.toList_of]
 
 /-- **every angle is used, the encoding is applied exactly `len(angles)` times**: run in the free monoid (no relations
 between phase shifts and encodings) the code's loop returns a word that lists every angle exactly once and in order,
@@ -415,11 +377,6 @@ end EVT
 
 /-! ### the eigenvalue-transformation circuit as a matrix on an `n`-wire register -/
 
-/-- the processing gate's parameters other than the angle are those of `pc`, whatever angle was set -/
-theorem setTheta_fields (pc : Pcps ℝ) (θ : ℝ) :
-    (pc.setTheta θ).theta = θ ∧ (pc.setTheta θ).enc = pc.enc ∧ (pc.setTheta θ).aux = pc.aux ∧ (pc.setTheta θ).method = pc.method :=
-  ⟨rfl, rfl, rfl, rfl⟩
-
 /-- **c-phase processing: the circuit's matrix IS the eigenvalue-transformation matrix**, on every register, for every
 angle sequence and arbitrary matrices `U`, `Ui` standing for the block encoding and its `inverse()`:
 `Circuit.as_matrix` of `as_circuit()` = the alternating product of `exp(iθₖ(2P₀−1))` with `U`/`Ui` = `as_matrix()`
@@ -427,15 +384,15 @@ angle sequence and arbitrary matrices `U`, `Ui` standing for the block encoding 
 theorem C19_evt_circuit_matrix_cphase (pc : Pcps ℝ) (encAux : List ℕ) (θs : List ℝ) (items : List (EvtItem ℝ))
     (hm : pc.method = .cphase) (h : evtCircuit pc encAux (some θs) = .ok items) (n : ℕ)
     (U Ui : Matrix (Fin n → Bool) (Fin n → Bool) ℂ) :
-    circuitDen (evtDen n U Ui) items = evtSpec (fun θ : ℝ => exp ((I * (θ : ℂ)) • refl (EncZero n pc.enc))) U Ui θs ∧
-    evtMatrix (fun θ : ℝ => exp ((I * (θ : ℂ)) • refl (EncZero n pc.enc))) U Ui (some θs) = .ok (circuitDen (evtDen n U Ui) items) := by
+    circuitDen (evtDen n U Ui) items = evtSpec (fun θ : ℝ => exp ((I * (θ : ℂ)) • reflOn (EncZero n pc.enc))) U Ui θs ∧
+    evtMatrix (fun θ : ℝ => exp ((I * (θ : ℂ)) • reflOn (EncZero n pc.enc))) U Ui (some θs) = .ok (circuitDen (evtDen n U Ui) items) := by
   obtain ⟨θ0, c0, h0⟩ := evtCircuit_ok_asCircuit h
-  have hsub : ∀ θ, subDen pc (evtDen n U Ui) θ = exp ((I * (θ : ℂ)) • refl (EncZero n pc.enc)) := by
+  have hsub : ∀ θ, subDen pc (evtDen n U Ui) θ = exp ((I * (θ : ℂ)) • reflOn (EncZero n pc.enc)) := by
     intro θ
     rw [subDen_evtDen]
     exact C19_pcps_cphase_matrix (pc.setTheta θ) (pcGates pc θ) hm (pcGates_ok h0 θ) n
   have key := C19_evt_circuit_block pc encAux θs items (evtDen n U Ui) h 1
-    (fun θ : ℝ => exp ((I * (θ : ℂ)) • refl (EncZero n pc.enc))) (fun θ => by rw [hsub]) (fun θ => by simp) (by simp) (by simp)
+    (fun θ : ℝ => exp ((I * (θ : ℂ)) • reflOn (EncZero n pc.enc))) (fun θ => by rw [hsub]) (fun θ => by simp) (by simp) (by simp)
   simp only [mul_one] at key
   have k2 := key.2
   rw [← key.1] at k2
@@ -451,35 +408,92 @@ theorem C19_evt_circuit_matrix_auxiliary (pc : Pcps ℝ) (encAux : List ℕ) (θ
     (U Ui : Matrix (Fin n → Bool) (Fin n → Bool) ℂ)
     (hU : U * wireZero n a = wireZero n a * U) (hUi : Ui * wireZero n a = wireZero n a * Ui) :
     circuitDen (evtDen n U Ui) items * wireZero n a
-      = evtSpec (fun θ : ℝ => exp ((I * (θ : ℂ)) • refl (EncZero n pc.enc))) U Ui θs * wireZero n a ∧
-    evtMatrix (fun θ : ℝ => exp ((I * (θ : ℂ)) • refl (EncZero n pc.enc))) U Ui (some θs)
-      = .ok (evtSpec (fun θ : ℝ => exp ((I * (θ : ℂ)) • refl (EncZero n pc.enc))) U Ui θs) := by
+      = evtSpec (fun θ : ℝ => exp ((I * (θ : ℂ)) • reflOn (EncZero n pc.enc))) U Ui θs * wireZero n a ∧
+    evtMatrix (fun θ : ℝ => exp ((I * (θ : ℂ)) • reflOn (EncZero n pc.enc))) U Ui (some θs)
+      = .ok (evtSpec (fun θ : ℝ => exp ((I * (θ : ℂ)) • reflOn (EncZero n pc.enc))) U Ui θs) := by
   obtain ⟨θ0, c0, h0⟩ := evtCircuit_ok_asCircuit h
   have hp := fun θ => C19_pcps_auxiliary_matrix (pc.setTheta θ) (pcGates pc θ) hm (pcGates_ok h0 θ) a ha hdisj n han
   exact C19_evt_circuit_block pc encAux θs items (evtDen n U Ui) h (wireZero n a)
-    (fun θ : ℝ => exp ((I * (θ : ℂ)) • refl (EncZero n pc.enc)))
+    (fun θ : ℝ => exp ((I * (θ : ℂ)) • reflOn (EncZero n pc.enc)))
     (fun θ => by rw [subDen_evtDen]; exact (hp θ).2.1) (fun θ => (hp θ).2.2) hU hUi
 
 /-! ### the emitted gates' actions are those of the generated closed forms -/
 
-/-- `Rz(a)` (definition regenerated from `gates.py`) multiplies `|b⟩` by `e^{i·rzPhase a b}` -/
-theorem C19_rz_generated (a : ℝ) :
-    RzGate.mat a = !![Complex.exp (I * (rzPhase a false : ℝ)), 0; 0, Complex.exp (I * (rzPhase a true : ℝ))] := by
-  simp only [RzGate.mat, rzPhase]
-  have e : (((1 : ℝ) : ℂ) * I) * ((a : ℝ) : ℂ) / (((2 : ℝ) : ℝ) : ℂ) = I * ((a / 2 : ℝ) : ℂ) := by push_cast; ring
-  rw [e]
-  have hc : starRingEnd ℂ (Complex.exp (I * ((a / 2 : ℝ) : ℂ))) = Complex.exp (I * ((-(a / 2) : ℝ) : ℂ)) := by
-    rw [← Complex.exp_conj]; congr 1
-    rw [map_mul, Complex.conj_I, Complex.conj_ofReal]; push_cast; ring
-  rw [hc]
-  ext i j; fin_cases i <;> fin_cases j <;> simp
+/-- `Rz(a)`, `X` and the phase factor gate (definitions regenerated from `gates.py`): `Rz(a)` multiplies `|b⟩` by
+`e^{i·rzPhase a b}` (`rzPhase` is what `GateDesc.act` uses), `X` flips the bit, the phase factor gate is the scalar `e^{iφ}` -/
+theorem C19_leaf_actions_generated (a φ : ℝ) (k : ℕ) :
+    RzGate.mat a = !![Complex.exp (I * (rzPhase a false : ℝ)), 0; 0, Complex.exp (I * (rzPhase a true : ℝ))] ∧
+    PauliXGate.mat = !![0, 1; 1, 0] ∧ PhaseFactorGate.mat φ k = Complex.exp (I * φ) • 1 :=
+  ⟨rz_generated a, x_generated, phase_generated φ k⟩
 
-/-- `X` (generated) flips the bit, the phase factor gate (generated) multiplies every state by `e^{iφ}` -/
-theorem C19_x_phase_generated (φ : ℝ) (k : ℕ) :
-    PauliXGate.mat = !![0, 1; 1, 0] ∧ PhaseFactorGate.mat φ k = Complex.exp (I * φ) • 1 := by
+/-! ### the matrices of the emitted gates are what the gate classes compute (Core A / Core B)
+
+`gateMat n g` was defined through the basis-state action of `g`. For every placement `iw` of the gate's wires in the
+register it is the wire embedding `embed iw` (`_distribute_to_wires`, C04) of the controlled-gate combinator `ctrlGate`
+(= `blockOn`, i.e. `ControlledGate.as_matrix`, C02; controls first, all controlled on 0) applied to the closed form
+regenerated from `gates.py`. -/
+
+/-- the multi-controlled X of the auxiliary construction -/
+theorem C19_gate_cx_matrix {n k : ℕ} (iw : Fin (k + 1) ↪ Fin n) :
+    gateMat n (.cx (ctrlLabels iw) (List.replicate k 0) (tgtLabel iw)) = embed iw (ctrlGate k PauliXGate.mat) := by
+  have hl : (ctrlLabels iw).length = k := by simp [ctrlLabels]
+  have := act_cx (ctrlLabels iw) (tgtLabel iw)
+  rw [hl] at this
+  rw [gateMat, this, actMat_ctrlAct, monoMat_flip]
+
+/-- the controlled Rz gates of the c-phase cascade -/
+theorem C19_gate_crz_matrix {n k : ℕ} (a : ℝ) (iw : Fin (k + 1) ↪ Fin n) :
+    gateMat n (.crz a (ctrlLabels iw) (List.replicate k 0) (tgtLabel iw)) = embed iw (ctrlGate k (RzGate.mat a)) := by
+  have hl : (ctrlLabels iw).length = k := by simp [ctrlLabels]
+  have := act_crz a (ctrlLabels iw) (tgtLabel iw)
+  rw [hl] at this
+  rw [gateMat, this, actMat_ctrlAct, monoMat_rz]
+
+/-- the plain Rz gates (first gate of the cascade, middle gate of the auxiliary construction): with no controls
+`ctrlGate 0 U` is `U` itself on the single wire -/
+theorem C19_gate_rz_matrix {n : ℕ} (a : ℝ) (iw : Fin 1 ↪ Fin n) :
+    gateMat n (.rz a (iw 0).1) = embed iw (ctrlGate 0 (RzGate.mat a)) ∧
+    ∀ r c : Fin 1 → Bool, ctrlGate 0 (RzGate.mat a) r c = RzGate.mat a (b2f (r 0)) (b2f (c 0)) := by
   constructor
-  · simp only [PauliXGate.mat]; ext i j; fin_cases i <;> fin_cases j <;> simp
-  · simp only [PhaseFactorGate.mat]; congr 1; simp
+  · have h1 : ctrlLabels iw = [] := by simp [ctrlLabels]
+    have h2 : tgtLabel iw = (iw 0).1 := rfl
+    rw [gateMat, act_rz, ← h1, ← h2, actMat_ctrlAct, monoMat_rz]
+  · intro r c
+    have e1 : Fin.init r = fun _ : Fin 0 => false := Subsingleton.elim _ _
+    have e2 : Fin.init c = fun _ : Fin 0 => false := Subsingleton.elim _ _
+    simp [ctrlGate, splitCT, blockOn, e1, e2]
+
+/-- the phase correction: a scalar matrix on the register, whatever wires it is bound to, as `PhaseFactorGate.as_matrix` -/
+theorem C19_gate_phase_matrix {n m : ℕ} (φ : ℝ) (k : ℕ) (qs : List ℕ) (iw : Fin m ↪ Fin n) :
+    gateMat n (.phase φ k qs) = Complex.exp (I * φ) • 1 ∧
+    gateMat n (.phase φ k qs) = embed iw (Complex.exp (I * φ) • (1 : Matrix (Fin m → Bool) (Fin m → Bool) ℂ)) ∧
+    PhaseFactorGate.mat φ k = Complex.exp (I * φ) • 1 := by
+  have h : gateMat n (.phase φ k qs) = Complex.exp (I * φ) • 1 := by
+    have : (GateDesc.phase φ k qs : GateDesc ℝ).act = fun b => (b, φ) := by funext b; simp [GateDesc.act]
+    rw [gateMat, this, actMat_diag]
+    ext R C
+    by_cases hrc : R = C <;> simp [Matrix.diagonal, hrc]
+  exact ⟨h, by rw [h, embed_smul, embed_one], phase_generated φ k⟩
+
+/-- the three theorems above cover every gate that `as_circuit` emits for well-formed input: distinct control and target
+labels inside the register always are the image of a wire placement `iw` -/
+theorem C19_gate_placement_exists (n : ℕ) (cs : List ℕ) (t : ℕ) (hnd : (cs ++ [t]).Nodup) (hlt : ∀ e ∈ cs ++ [t], e < n) :
+    ∃ iw : Fin (cs.length + 1) ↪ Fin n, ctrlLabels iw = cs ∧ tgtLabel iw = t :=
+  placement_exists n cs t hnd hlt
+
+/-! ### what the constructor refuses -/
+
+/-- `ProjectorControlledPhaseShift.__init__`: a projection state with an entry outside {0,1} is a `ValueError` (checked
+first), an unknown method a `RuntimeError`; the c-phase method forgets the auxiliary qubits -/
+theorem C19_pcps_init (θ : ℝ) (proj : List Int) (enc aux : List ℕ) (method : String) :
+    (proj.any (fun s => s != 0 && s != 1) = true → Pcps.init θ proj enc aux method = .error .valueError) ∧
+    (proj.any (fun s => s != 0 && s != 1) = false →
+      Pcps.init θ proj enc aux method =
+        if method = "auxiliary" then .ok ⟨θ, proj, enc, aux, .auxiliary⟩
+        else if method = "c-phase" then .ok ⟨θ, proj, enc, [], .cphase⟩ else .error .runtimeError) := by
+  constructor
+  · intro h; simp [Pcps.init, h]
+  · intro h; simp [Pcps.init, h]
 
 /-! ### non-vacuity -/
 
@@ -501,5 +515,16 @@ example : ∃ c, (⟨0.5, [0, 0], [1, 2], [0], .auxiliary⟩ : Pcps ℝ).asCircu
     (∀ a ∈ ([0] : List ℕ).head?, a ∉ ([1, 2] : List ℕ)) := by
   obtain ⟨⟨c, hc, _⟩, _⟩ := C19_pcps_asCircuit_accepts 0.5 1 [2] 0 []
   exact ⟨c, hc, by simp⟩
+
+/-- hypotheses of `C19_evt_circuit_matrix_auxiliary` are satisfiable: auxiliary qubit 0, encoding qubit 1, three angles, a 3-wire
+register and the identity for the encoding (which certainly does not touch wire 0) -/
+example : ∃ items, evtCircuit (⟨0, [0], [1], [0], .auxiliary⟩ : Pcps ℝ) [1] (some [0.1, 0.2, 0.3]) = .ok items ∧ items.length = 12 ∧
+    (1 : Matrix (Fin 3 → Bool) (Fin 3 → Bool) ℂ) * wireZero 3 0 = wireZero 3 0 * 1 := by
+  refine ⟨_, by simp [evtCircuit, evtCircuitLoop, evtCircuitBody, evtPrepend, Pcps.asCircuit, Pcps.setTheta, auxCircuit]; rfl, ?_, by simp⟩
+  simp
+
+/-- a placement for `C19_gate_crz_matrix`: controls on wires 2, 0 and target on wire 1 of a 3-wire register -/
+example : ∃ iw : Fin 3 ↪ Fin 3, ctrlLabels iw = [2, 0] ∧ tgtLabel iw = 1 :=
+  C19_gate_placement_exists 3 [2, 0] 1 (by decide) (by decide)
 
 end Qib.C19
